@@ -154,9 +154,14 @@ func budget() time.Duration {
 	return time.Duration(s) * time.Second
 }
 
+// budgetOver is set by the watchdog goroutine (real clock, outside any bubble): inside a synctest
+// bubble time.Since would compare a virtual instant with the real start time.
+var budgetOver atomic.Bool
+var procStart = time.Now()
+
 func (r *Report) OverBudget() bool {
 	b := budget()
-	if b > 0 && time.Since(r.start) > b {
+	if b > 0 && (budgetOver.Load() || time.Since(r.start) > b) {
 		r.mu.Lock()
 		if r.Exhaustive {
 			r.Exhaustive = false
@@ -196,6 +201,9 @@ func init() {
 		since := time.Now()
 		for {
 			time.Sleep(2 * time.Second)
+			if b := budget(); b > 0 && time.Since(procStart) > b {
+				budgetOver.Store(true)
+			}
 			if os.Getenv("MC_JOURNAL") == "" {
 				continue
 			}
